@@ -248,7 +248,7 @@ class Interp:
         self.fit_log: list = []                    # (call node, args, kwargs, depth) of every estimator.fit(...) met, in order
         self._gbusy: set = set()
         self.keep_astype = False                   # keep x.astype(t) visible in value forms instead of treating it as the identity
-        self.unroll_literal_loops = False          # execute `for row in <literal table>` row by row instead of abstracting the loop
+        self.unroll_literal_loops = True           # execute `for row in <literal table>` row by row instead of abstracting the loop
         self.stop_at_calls: set = set()            # dotted callee names at which a top-level path is cut (counts as a return)
         self.falsy_arith: list = []                # (fi, node, operand, depth): arithmetic on a value assumed falsy (absent optional parameter)
         self.nested_raises: list = []              # raise outcomes inside inlined callees that also have returning paths
@@ -650,6 +650,54 @@ class Interp:
                         out.add(r.id)
         return out
 
+    def _derived_at_head(self, s, names, pre, st, fi, depth):
+        """{X: T(loop<Y>)} for loop variables X that are kept equal to one function T of another loop variable Y: X = T(Y) on
+        entry and X = T(Y) again at the end of one (dry) pass over the body started from arbitrary values"""
+        cands = []
+        for x in names:
+            px = pre.get(x)
+            if not isinstance(px, Form):
+                continue
+            for y in names:
+                py = pre.get(y)
+                if y == x or not isinstance(py, Form):
+                    continue
+                ya = py.single_atom()
+                if ya is None or py != Form.atom(ya) or not contains_atom_form(px, ya):
+                    continue
+                cands.append((x, y, ya))
+        if not cands or any(isinstance(n_, ast.Continue) for b_ in s.body for n_ in ast.walk(b_)):
+            return {}
+        marks = (len(self.calls), len(self.assign_log), len(self.store_log), len(self.none_arith), len(self.bad_attrs), len(self.falsy_arith),
+                 len(self.nested_raises), len(self.fit_log), len(self._stack[-1][1]) if self._stack else 0)
+        dry = State(fork_env(st.env), st.facts.copy(), list(st.conds))
+        dry.loop_exits = []
+        self._refine(s.test, dry, fi, depth, True)
+        self._loop_stack_push(dry)
+        try:
+            self.exec_block(s.body, dry, fi, depth)
+        except Exception:
+            dry.live = False
+        finally:
+            self._loop_stack_pop()
+            del self.calls[marks[0]:], self.assign_log[marks[1]:], self.store_log[marks[2]:], self.none_arith[marks[3]:]
+            del self.bad_attrs[marks[4]:], self.falsy_arith[marks[5]:], self.nested_raises[marks[6]:], self.fit_log[marks[7]:]
+            if self._stack:
+                del self._stack[-1][1][marks[8]:]
+        out = {}
+        if not dry.live:
+            return out
+        for x, y, ya in cands:
+            ex, ey = dry.env.get(x), dry.env.get(y)
+            if not (isinstance(ex, Form) and isinstance(ey, Form)):
+                continue
+            px = pre[x]
+            if px.subst(lambda a: ey if a == ya else None) == ex:
+                head_y = st.env.get(y)
+                if isinstance(head_y, Form):
+                    out[x] = px.subst(lambda a: head_y if a == ya else None)
+        return out
+
     def _havoc(self, names, st, node, tag):
         for n in names:
             if n in st.env and isinstance(st.env[n], (FuncV, ClassRef)):
@@ -660,6 +708,10 @@ class Interp:
         names = self._assigned_names(s.body) | self._assigned_names(s.orelse)
         pre = fork_env(st.env)
         self._havoc(names, st, s, "")
+        head_env = fork_env(st.env)
+        # derived variables: X = T(Y) before the loop and again at the end of the body (same T) holds at every loop head
+        for xname, val in self._derived_at_head(s, names, pre, st, fi, depth).items():
+            st.env[xname] = val
         head_env = fork_env(st.env)
         body = State(fork_env(st.env), st.facts.copy(), list(st.conds))
         body.conds.append((src_of(s.test), True))
@@ -980,6 +1032,9 @@ class Interp:
         return None
 
     def _eq(self, l, r, st):
+        for a_, b_ in ((l, r), (r, l)):
+            if isinstance(a_, Form) and a_.is_zero() and isinstance(b_, Form) and st.facts.truth.get(b_.key()) is True:
+                return False     # a value assumed truthy is not 0
         lv = self._const_of(l, st)
         rv = self._const_of(r, st)
         if lv is not _MISSING and rv is not _MISSING:
@@ -1561,6 +1616,16 @@ class Interp:
             i = int(idx.rational())
             if -len(base.items) <= i < len(base.items):
                 return base.items[i]
+        if isinstance(base, TupleV) and isinstance(idx, SliceV):
+            def _b(x):
+                if isinstance(x, Const) and x.v is None:
+                    return None
+                if isinstance(x, Form) and x.rational() is not None and x.rational().denominator == 1:
+                    return int(x.rational())
+                return _MISSING
+            lo_, hi_, st_ = _b(idx.lo), _b(idx.hi), _b(idx.step)
+            if _MISSING not in (lo_, hi_, st_):
+                return TupleV(base.items[slice(lo_, hi_, st_)], base.kind)     # a literal sequence sliced at constant bounds
         if isinstance(base, TupleV) and isinstance(idx, Form) and idx.rational() is not None and idx.rational().denominator == 1:
             i = int(idx.rational())
             if -len(base.items) <= i < len(base.items):
@@ -1919,7 +1984,10 @@ class Interp:
         if not rets:
             # every path raises: the caller's path ends here
             if raises:
-                self._stack[-1][1].append(Outcome("raise", None, list(st.conds) + [(f"in {callee.qualname}", True)], n, raises[0].exc))
+                # every path of the callee raises: each of them ends the caller's path, in the callee's order (the last one is
+                # the raise reached when all earlier, undecided guards were passed)
+                for r_ in raises:
+                    self._stack[-1][1].append(Outcome("raise", None, list(st.conds) + [(f"in {callee.qualname}", True)] + list(r_.conds[len(st.conds):]), r_.node if r_.node is not None else n, r_.exc))
                 st.live = False
             return Form.atom(("opaque", f"noreturn {callee.qualname}"))
         # facts learned on surviving paths: conditions that lead only to raise are excluded on return
@@ -1966,13 +2034,18 @@ class Interp:
             if attr == "get" and args:
                 key = args[0]
                 v = base.get(key)
+                known = isinstance(key, Const)
                 if v is None:
                     kc = self._const_of(key, st) if not isinstance(key, Const) else _MISSING
                     if kc is not _MISSING and isinstance(kc, (str, int, bool)):
                         v = base.get(Const(kc))
+                        known = True
                 if v is not None:
                     return v
-                return args[1] if len(args) > 1 else NONE
+                if known or not base.items:
+                    return args[1] if len(args) > 1 else NONE
+                # a key that is not known on this path: any entry or the default
+                return Form.atom(("meth", base, "get", tuple(map(as_value, args)), ()))
             if attr in ("keys", "values", "items"):
                 if attr == "keys":
                     return TupleV([k for k, _ in base.items], "list")
@@ -2042,8 +2115,10 @@ class Interp:
                 return mk_fn(_ARRAY_METHODS_AS_FN[attr], [as_value(a) for a in cargs], [(k, as_value(v)) for k, v in ckw.items()])
             a = base.single_atom()
             if a is not None and a[0] == "c":
-                # module-level object from a library: warnings.warn(...), plt.plot(...)
+                # module-level object from a library: warnings.warn(...), plt.plot(...), (np.random).standard_normal(...)
                 rec.callee = a[1] + "." + attr
+                if a[1].startswith(("numpy", "scipy", "math")):
+                    return self._dispatch_call(n, a[1] + "." + attr, args, kwargs, st, fi, depth, rec)
                 return mk_fn(a[1] + "." + attr, [as_value(x) for x in args], [(k, as_value(v)) for k, v in kwargs.items()])
         return Form.atom(("meth", as_value(base), attr, tuple(map(as_value, args)), tuple(sorted((k, as_value(v)) for k, v in kwargs.items()))))
 
@@ -2117,6 +2192,10 @@ class Interp:
                 a = a + [NONE]
             return SliceV(*a)
         return None
+
+
+def contains_atom_form(f, atom):
+    return isinstance(f, Form) and any(a == atom for a in f.atoms(deep=True))
 
 
 def _full_slice(i):
